@@ -243,6 +243,25 @@ def abstract_value(E, cur, spec, name):
     raise Unsupported('cut: abstraction spec %r' % (spec,))
 
 
+def _rename_text(text, amap):
+    """rename identifiers (not attribute names, not string contents) in a fragment of source text"""
+    import re as _re
+    for old, new in amap.items():
+        text = _re.sub(r'''(?<![\.\w'"])%s(?![\w'"])''' % _re.escape(old), new, text)
+    return text
+
+
+def _translate_cut(cut, amap):
+    out = dict(cut)
+    out['before'] = _rename_text(cut['before'], amap)
+    if 'abstract' in cut:
+        out['abstract'] = {amap.get(k, k): v for k, v in cut['abstract'].items()}
+    for key in ('live', 'havoc_heap'):
+        if key in cut:
+            out[key] = [amap.get(x, x) if isinstance(x, str) and x.isidentifier() else x for x in cut[key]]
+    return out
+
+
 # ---------------------------------------------------------------- contracts
 class Contract:
     def __init__(self, func, params, requires=(), ensures=None, exc_ensures=None,
@@ -334,6 +353,14 @@ def verify(E, c, verbose=False):
     ens_nodes = {k: _parse(v) for k, v in c.ensures.items()}
     exc_nodes = {k: _parse(v) for k, v in c.exc_ensures.items()}
     c._cut_nodes = {}
+    from .aliases import alias_map, AliasDict
+    amap = alias_map(fn.qual, fn.node)
+    c._alias = amap
+    if amap and not getattr(c, '_cuts_written', None):
+        c._cuts_written = list(c.cuts)
+    if getattr(c, '_cuts_written', None) is not None:
+        # locals renamed in the source: cut locators, abstracted / live variables are translated to the current spelling
+        c.cuts = [_translate_cut(cut, amap) for cut in c._cuts_written]
     for ci, cut in enumerate(c.cuts):
         want = ' '.join(cut['before'].split())
         hits = [n for n in ast.walk(fn.node) if isinstance(n, ast.stmt)
@@ -375,6 +402,7 @@ def verify(E, c, verbose=False):
         E.cur_contract = c
         try:
             env = Env(fn.mod, closure=None, fn=fn)
+            env.locals = AliasDict(amap)
             args = {}
             a = fn.node.args
             names = [x.arg for x in a.posonlyargs + a.args] + [x.arg for x in a.kwonlyargs]
@@ -409,6 +437,7 @@ def verify(E, c, verbose=False):
             entry = dict(env.locals)
             E.entry_measure = E.as_z3_int(E.eval_spec(c.measure, env, E.ghost_env(env))) if c.measure else None
             spec_env = Env(fn.mod, closure=None, fn=fn)
+            spec_env.locals = AliasDict(amap)
             spec_env.locals.update(entry)
             old = _collect_old(E, list(ens_nodes.values()) + list(exc_nodes.values()), spec_env)
             E.old_stash = old
@@ -446,7 +475,7 @@ def verify(E, c, verbose=False):
                     E.oblige('%s::raises_only' % prefix, bool(ok), 'exc_closure',
                              'escaping %s not in %s' % (value.cls, c.raises))
             if c.exit_hook:
-                spec_env.final = dict(env.locals)     # the activation's locals at exit (entry values are spec_env.locals)
+                spec_env.final = AliasDict(amap, env.locals)     # the activation's locals at exit (entry values are spec_env.locals)
                 c.exit_hook(E, outcome, value, spec_env, prefix)
             if verbose:
                 print('  path %d: %s %r' % (res.paths, outcome, value))
